@@ -24,6 +24,7 @@ def gen_tables(tier="quick", log=print):
     table, unspelled, unread, prims, tokens = S.static_table(exe)
     dyn, nprog = S.dynamic_table(exe, table, tokens, tier)
     changed = S.write_gen(table, dyn)
+    S.write_model_sig(exe, table)
     log("primop tables: %d Display arms, %d static rows, %d interpreter runs, %.1fs%s" % (
         len(prims), len(table), nprog, time.time() - t0, " (Gen/*.v rewritten)" if changed else ""))
     return {"table": table, "dyn": dyn, "unspelled": unspelled, "unread": unread, "prims": prims,
